@@ -1,4 +1,5 @@
 import Pms.Props.Extra
+import Pms.Props.Filon
 
 #print axioms Pms.Extra.E_lines_intersection
 #print axioms Pms.Extra.E_lines_parallel
@@ -8,3 +9,9 @@ import Pms.Props.Extra
 #print axioms Pms.Extra.E_inertia_order
 #print axioms Pms.Extra.E_triangle_angle_real
 #print axioms Pms.Extra.E_legendre2_cos
+#print axioms Pms.Filon.E_filon_source_shape
+#print axioms Pms.Filon.E_filon_zero_frequency
+#print axioms Pms.Filon.value_panel
+#print axioms Pms.Filon.antider_deriv
+#print axioms Pms.Filon.integral_quad_cos
+#print axioms Pms.Filon.E_filon_panel_exact
